@@ -205,11 +205,11 @@ func init() {
 		ID: "C19",
 		Rule: "finite configuration enumeration in the process state after every init(): (1) every command x every local/persistent flag: documented default (pflag DefValue, which is what the help text prints) == value actually held by the bound variable; " +
 			"(2) flags grouped by the address of the variable they write: all defaults within a group agree (names the pair of commands sharing storage); (3) the default printed in the help text == DefValue; " +
-			"(4) behavioural: for every runnable command line of the driver table and every flag the command accepts that is not on the line, output with the flag omitted == output with --flag=<documented default> (in-process on the real cmd package, flag state restored to the post-init snapshot before each run); non-trivial = flag whose variable is shared with another command or that has a non-zero default",
+			"(4) behavioural: for every runnable command line of the driver table and every flag the command accepts that is not on the line, output with the flag omitted == output with --flag=<documented default> (in-process on the real cmd package, flag state restored to the post-init snapshot before each run); (5) interference: every command line of the table x every option variable that no option accepted by that command is bound to: the variable is given another value (as if the owning command had registered another default) and the output must not move; non-trivial = flag whose variable is shared with another command or that has a non-zero default",
 		Assumptions: []string{"cobra/pflag print Flag.DefValue in the help text and Value.String() renders the bound variable", "in-process execution from the post-init snapshot of all flag values equals a fresh process (package-level state not bound to flags is not reset)",
 			"every process runs with COLUMNS=97 LINES=43 TERM=dumb NO_COLOR=1 exported, so that an effective default taken from the environment after registration differs from the documented one"},
-		Serial:      false,
-		Require:     []string{"flags_static", "flags_shared_storage", "e2e_pairs"},
+		Serial:  false,
+		Require: []string{"flags_static", "flags_shared_storage", "e2e_pairs"},
 		Run: func(c *Ctx) {
 			defer cliCleanup()
 			if !c.Quick() {
